@@ -5,7 +5,7 @@ CONSTANT SimDepth
 
 \* multi-signature public keys: no member, one member, ordered pairs, a repeated member, triples
 KL_quick    == { <<>>, <<1>>, <<1, 2>>, <<2, 1>>, <<1, 1>>, <<1, 2, 3>>, <<3, 1, 2>>, <<1, 2, 1>> }
-KL_thorough == KL_quick \cup { <<2>>, <<2, 3>>, <<2, 2, 1>>, <<1, 2, 3, 4>>, <<4, 3, 2, 1>>, <<1, 2, 2, 4>>, <<2, 1, 4, 3>> }
+KL_thorough == KL_quick \cup { <<1, 2, 3, 4>>, <<4, 3, 2, 1>>, <<1, 2, 2, 4>> }
 KL_sim      == KL_thorough \cup { <<1, 2, 3, 4, 5>>, <<5, 4, 1, 2, 3>>, <<1, 2, 3, 4, 5, 6>>, <<1, 1, 2, 2, 3, 3>> }
 
 \* transition cover: every distinct <<keys, sigs>> is expanded once and each outgoing
